@@ -152,3 +152,4 @@ func uniq(xs []string) []string {
 	sort.Strings(out)
 	return out
 }
+
